@@ -171,11 +171,18 @@ void case_roundtrip(uint64_t idx, vh::Rng& rng) {
         const int fd = ::open(path.c_str(), O_WRONLY | O_CREAT | O_TRUNC | O_CLOEXEC, 0644);
         auto c = factory.create_compressor(comp, fd, rng.coin() ? osmium::io::fsync::yes : osmium::io::fsync::no);
         size_t off = 0;
+        // zero-length pieces (first, in between, last) are valid writes and add nothing
+        const bool empties = rng.coin();
+        size_t nempty = 0;
+        if (empties && rng.coin()) { c->write(std::string{}); ++nempty; }
         while (off < data.size()) {
             const size_t piece = std::min(data.size() - off, static_cast<size_t>(rng.pick(std::vector<size_t>{1, 7, 4096, 65536, 1000000})));
             c->write(data.substr(off, piece));
             off += piece;
+            if (empties && rng.chance(1, 4)) { c->write(std::string{}); ++nempty; }
         }
+        if (empties && nempty == 0) { c->write(std::string{}); ++nempty; }
+        if (nempty) vh::count("library_roundtrips_with_zero_length_writes");
         c->close();
         reported = c->file_size();
     } catch (const std::exception& e) {
